@@ -197,6 +197,12 @@ def run(cfg, H):
         KB = H.linear_map(lambda d: P.sum_of_2d_modes_backprop(H.np.stack(modes) if H.mode == 'concrete' else H.np.stack([H.asarray(x) for x in modes]), d),
                           (2, 3), complex_=False, name='d')
         adjoint_kernels(H, 'sum_of_2d_modes_backprop is the transpose', KA, KB, 1)
+        # the upstream gradient in column-major memory (a transposed frame): the result may not depend on the layout
+        stk = H.np.stack(modes) if H.mode == 'concrete' else H.np.stack([H.asarray(x) for x in modes])
+        d = H.rarray('dF', (2, 3))
+        dF = H.asarray(H.np.asfortranarray(H.np.asarray(d)))
+        H.eq('sum_of_2d_modes_backprop does not depend on the memory layout of the gradient', P.sum_of_2d_modes_backprop(stk, dF),
+             P.sum_of_2d_modes_backprop(stk, d))
     elif k == 'sgrad':
         ops = H.mod('prysm.x.optym.operators').SpatialGradient2D()
         shp = tuple(cfg['shape'])
